@@ -66,7 +66,7 @@ func runMix(id string, parts []string) string {
 	for _, q := range pool {
 		allowed[hx.QuestionKey(hx.BuildQuery(0, q.name, q.typ, q.cls, true))] = true
 	}
-	env.KeyedAllowed = allowed
+	env.SetKeyedAllowed(allowed)
 	listeners := []string{"udp", "udp", "tcp", "gnet", "http-post", "fasthttp-get"}
 	if ls := f["ls"]; ls != "" {
 		listeners = strings.Split(ls, "+")
